@@ -110,7 +110,8 @@ Fixpoint cstr (k : nat) (l : list N) : list N :=
   match k, l with S k', x :: r => if x =? 0 then [] else x :: cstr k' r | _, _ => [] end.
 
 (* DecodeAddress: (type == NON_RANGE ? 1 : 3) * DMPSizeToByteSize(TWO_BYTES) *)
-Definition DMP_ADDR_BYTES : N := 3 * 2.
+(* start, increment, number: three fields of DMPSizeToByteSize(TWO_BYTES) bytes each (regenerated) *)
+Definition DMP_ADDR_BYTES : N := 3 * DMP_ADDR_UNIT.
 Definition acn_be16 (l : list N) (i : nat) : N := 256 * nth i l 0 + nth (S i) l 0.
 
 (* the tail of HandlePDUData: merge the sources, run the closure *)
@@ -503,7 +504,7 @@ Proof.
   destruct (find_u hs (e_uni e)) as [uhd|]; [|constructor].
   match goal with |- bounded _ (if ?c then _ else _) => destruct c end; [constructor|].
   destruct (MAX_E131_PRIORITY <? e_prio e); [constructor|].
-  unfold DMP_ADDR_BYTES.
+  unfold DMP_ADDR_BYTES, DMP_ADDR_UNIT.
   destruct (l <? 3 * 2) eqn:E; [constructor|]. apply N.ltb_ge in E.
   apply bBlk; [right; lia|]. intros a Ha Hok. cbv zeta.
   destruct (negb (acn_be16 a 2 =? 1)); [constructor|].
@@ -577,7 +578,7 @@ Proof.
     destruct (v =? VECTOR_ROOT_LLRP); [apply llrp_block_bounded; assumption|constructor].
 Qed.
 
-Lemma acn_bounded ign n hs : n <= ACN_MAX_DATAGRAM -> bounded n (acn_handle ign n hs).
+Lemma acn_bounded_any ign n hs : n <= 2147483647 -> bounded n (acn_handle ign n hs).
 Proof.
   intros Hn. unfold acn_handle. cbv zeta.
   destruct (n <? ACN_HEADER_SIZE) eqn:E; [constructor|]. apply N.ltb_ge in E.
@@ -589,3 +590,7 @@ Proof.
   replace (n + 4294967296 - 16) with ((n - 16) + 1 * 4294967296) by lia.
   rewrite N.mod_add by lia. rewrite N.mod_small by lia. lia.
 Qed.
+
+(* for the capacity of the real receive buffer *)
+Lemma acn_bounded ign n hs : n <= ACN_MAX_DATAGRAM -> bounded n (acn_handle ign n hs).
+Proof. intros Hn. apply acn_bounded_any. unfold ACN_MAX_DATAGRAM in Hn. lia. Qed.
